@@ -63,6 +63,39 @@ def stage1(prop, tier, v, cov):
     cov["transitions"] = tr
 
 
+def corrupt(prop):
+    def f(lines):
+        ds = [json.loads(l) for l in lines]
+        def out(i, d, what):
+            return what, lines[:i] + [json.dumps(d)] + lines[i + 1:]
+        for i, d in enumerate(ds):
+            e = d["e"]
+            if prop == "C08" and e == "Out" and d["kind"] == "r" and len(d["t"]) >= 2:
+                d["t"] = d["t"][:-2] + ("00" if d["t"][-2:] != "00" else "01")
+                return out(i, d, "changed the last byte of a logged reply's transaction ID")
+            if prop == "C07" and e == "Ret" and d["class"] == "reply" and len(d["t"]) >= 2:
+                d["t"] = d["t"][:-2] + ("00" if d["t"][-2:] != "00" else "01")
+                return out(i, d, "changed the transaction ID of a logged query return")
+            if prop == "C10" and e == "In" and d["q"] == "announce_peer" and d["hasA"] and d["tok"] and not d["drop"]:
+                if any(x["e"] == "Cb" and x["kind"] in ("AddPeer", "OnAnnounce") for x in ds[i + 1:i + 4]):
+                    d["tok"] = "00" + d["tok"][2:] if d["tok"][:2] != "00" else "01" + d["tok"][2:]
+                    return out(i, d, "altered the token of a logged announce_peer whose effects were logged")
+            if prop == "C11" and e == "Cb" and d["kind"] == "AddPeer":
+                d["port"] = d["port"] % 65535 + 1
+                return out(i, d, "changed the port of a logged AddPeer callback")
+            if prop == "C19" and e == "Out" and not d["failed"]:
+                blk = json.dumps({"seg": d["seg"], "node": d.get("node", ""), "e": "SetBlock", "blocked": [d["dst"]["ipn"]]})
+                return "inserted a blocklist entry covering the destination of a logged write", lines[:i] + [blk] + lines[i:]
+            if prop == "C20" and e == "Start" and d["burst"] > 0 and d["rate"] == 0:
+                d["burst"] = 0
+                return out(i, d, "declared a burst of 0 for a scenario in which rated datagrams were written")
+            if prop == "C01" and e == "Probe":
+                d["answered"] = False
+                return out(i, d, "marked a logged probe ping as unanswered")
+        return None
+    return f
+
+
 def run(prop, tier, seed, replay=None):
     t0 = time.time()
     v = vlib.Verdict(prop)
@@ -109,6 +142,17 @@ def run(prop, tier, seed, replay=None):
     with ThreadPoolExecutor(max_workers=min(len(jobs), max(1, vlib.NCPU // 2))) as ex:
         results = list(ex.map(one, jobs))
     events_total = 0
+    okres = [r for r in results if r[3] is not None and r[0][0] != "net" and not r[2]]
+    if not replay and okres:
+        st_ = dict(tried=False, detected=True, what="")
+        for r in okres[:4]:
+            st_ = vlib.binding_selftest("Trace_KrpcServer", (trace_cfg(prop), None), r[1], corrupt(prop), {"Inv" + prop: [prop]})
+            if st_["tried"]:
+                break
+        cov["binding_selftest"] = st_
+        log("  binding self-test: %s -> %s" % (st_["what"], "rejected, as required" if st_["detected"] else "NOT NOTICED"))
+        if not st_["detected"]:
+            v.inconclusive.append("binding self-test failed: the validator accepted a corrupted trace (%s)" % st_["what"])
     for (mode, s, n, nev, only), out, crash, tv in results:
         lines = vlib.read_trace(out) if os.path.exists(out) else []
         events_total += len(lines)
